@@ -37,6 +37,13 @@ def make_world(rng, d, k):
         fsutil.make_file(p, size, data if data is not None else [(0, size)], tag=k * 10 + i + 1, sync=(data is not None))
         files[rel] = size
     os.symlink("one.bin", os.path.join(src, "lnk"))
+    # extended attributes on some sources: copying them is best effort (a refusal by the destination is only warned
+    # about) and must not cost the flush
+    for rel in ("one.bin", "sub/multi.bin"):
+        try:
+            os.setxattr(os.path.join(src, rel), "user.note", b"v" * rng.choice([5, 300]))
+        except OSError:
+            pass
     return files, bs
 
 
@@ -94,7 +101,8 @@ def run(ctx, out):
     d0 = ctx.work.fresh("c18")
     out.rule = ("trees with single-block, multi-block (2..16 blocks of 16 KiB), empty, all-hole, leading- and trailing-hole files; "
                 "both drivers, workers 1/2/4/16, random thread holds (several seeds), copy_file_range available or failing with "
-                "ENOSYS/EXDEV (user-space fallback), --fsync on (oracle: fsync entered after the last data/size call of the "
+                "ENOSYS/EXDEV (user-space fallback), extended attributes refused by the destination (ENOSPC/EPERM/ENOTSUP/E2BIG/EACCES: "
+                "best effort, only warned about), --fsync on (oracle: fsync entered after the last data/size call of the "
                 "file and returned before exit) and off (oracle: no fsync); non-trivial = --fsync run with >= 2 workers; "
                 "distinct = (case, driver, workers, seed, fsync, cfr)")
     ncases = 3 if quick else 20
@@ -128,6 +136,11 @@ def run(ctx, out):
                     cfr = rng.choice([38, 18])
                     kw["rules"] = [("fail", cfr, 0, "copy_file_range", 0, "*")]
                     out.count("copy_file_range_unavailable")
+                if rng.random() < 0.3:
+                    # the destination refuses the attribute (no space for it / not permitted / unsupported / too big)
+                    xe = rng.choice([28, 1, 95, 7, 13])
+                    kw["rules"] = kw.get("rules", []) + [("fail", xe, 0, "fsetxattr", 0, "*")]
+                    out.count("xattr_refused_errno_%d" % xe)
             r = xcp.run_supervised(sup, argv, d, d, tag="r", timeout_ms=60000, **kw)
             out.case((k, driver, w, sd, fs, cfr), nontrivial=(fs and w >= 2))
             out.count("driver_" + driver)
@@ -149,7 +162,13 @@ def run(ctx, out):
                 st_len = os.path.getsize(p)
                 has_data = 5 in codes
                 issued = 1 if 4 in codes else 0
-                minputs.append([0, 0, 0, 1 if fs else 0, 0, 0, 0, st_len, 0, issued, 1 if has_data else 0, 0])
+                try:
+                    nx = len(os.listxattr(os.path.join(d, "src", os.path.relpath(p, dst_root))))
+                except OSError:
+                    nx = 0
+                if any(ru[3] == "fsetxattr" for ru in kw.get("rules", [])):
+                    nx = 0          # refused calls change nothing: they are not among the mutating actions compared
+                minputs.append([0, 0, 0, 1 if fs else 0, 0, 0, 0, st_len, 0, issued, 1 if has_data else 0, nx])
                 mmeta.append((dict(rep, file=p[len(d):]), codes))
             # R2b: protocol history
             pfiles, events, problems = c06.project(r, os.path.join(d, "src"), dst_root, bs)
